@@ -147,6 +147,24 @@ theorem node_bound (ts : List Kind) (fuel : Nat) : (parseAllWith ts fuel).nodes.
   simp only [List.length_reverse]
   omega
 
+/-- the lexer's limit on the number of tokens (`MAX_NUM_TOKENS` of src/delta/lexer/tokens.rs; read from the source by
+    checks/c15.py and compared with this constant) and the number of nodes a 24-bit `NodeId` can tell apart -/
+def maxNumTokens : Nat := 2 ^ 22 - 2
+def maxNumNodes : Nat := 2 ^ 24
+
+/-- **C15, node numbers.**  Whatever the lexer lets through gets distinct 24-bit node numbers: every index the parser
+    hands to `U24::new` is below `MAX_NUM_NODES`.  (With the former limit of `2 ^ 24` tokens a module of 4.9 million
+    tokens made 17 million nodes: `debug_assert!` failed in a debug build and the numbers wrapped in a release build.) -/
+theorem node_ids_fit (ts : List Kind) (fuel : Nat) (h : ts.length ≤ maxNumTokens) :
+    (parseAllWith ts fuel).nodes.length ≤ maxNumNodes := by
+  have := node_bound ts fuel
+  simp only [maxNumTokens, maxNumNodes] at *
+  omega
+
+/-- the former limit does not give this: the bound `4 · tokens + 6` is reached (`pinned_capacity_too_small` shows the
+    parser needing more than two nodes per token, `a + a + ...` needs four) and `4 · 2 ^ 24 + 6 > 2 ^ 24` -/
+example : ¬ (4 * 2 ^ 24 + 6 ≤ maxNumNodes) := by decide
+
 /-- `fn f(){x=a+a+a;}`: a well-formed module on which the pinned capacity `5 + 2·tokens` is exceeded -/
 def denseModule : List Kind :=
   [.Fn, .Identifier, .ParenLeft, .ParenRight, .BraceLeft, .Identifier, .Assignment, .Identifier, .Plus, .Identifier,
